@@ -303,6 +303,22 @@ func (p *provider) setSingleton(key instanceKey, instance any) {
 	}
 }
 
+// registers reports whether the descriptor is part of this provider's registry.
+// A descriptor that was removed from the collection before Build is not, even
+// though the other descriptors of its registration still refer to it.
+func (p *provider) registers(descriptor *Descriptor) bool {
+	if descriptor.Group != "" {
+		for _, member := range p.groups[GroupKey{Type: descriptor.Type, Group: descriptor.Group}] {
+			if member == descriptor {
+				return true
+			}
+		}
+		return false
+	}
+
+	return p.services[TypeKey{Type: descriptor.Type, Key: descriptor.Key}] == descriptor
+}
+
 // findDescriptor finds a descriptor for the given service type and optional key.
 // Returns nil if no matching descriptor is found in the service registry.
 func (p *provider) findDescriptor(serviceType reflect.Type, key any) *Descriptor {
